@@ -56,6 +56,44 @@ CLAIMED = {
         note="The dump-with-literal-zone clause is covered with the dumper model under C08 when claimed; float regime hashes are known finding F3.",
         technique="Coq proof (corollary of C01/C02/C04) + correspondence + Spec oracle",
         design="7 C06"),
+    "C07": dict(
+        text=("Theorems (Props/C07.v) over the form tables REGENERATED from the package's compiled regexes on every run: a generic render/match "
+              "lemma (every well-formed assignment of digit strings rendered through a form's tokens is matched back to exactly its bindings), a "
+              "sound shape-disjointness test and, by reflection over all searched lists (24 date, 12 time, 6 zone configurations: expanded digits "
+              "0/2/3 x allow_truncated x allow_only_basic x reduced allowed or not), every form is reached by the parser's search (or its identical "
+              "basic-table twin) with three exceptions listed in the file; get_info on date 'T' time zone returns the three forms' bindings and the "
+              "concatenated expression text (dump_as_parsed format) for every triple the tables offer; parse_text = the constructor applied to the "
+              "numbers the digit groups denote, zone resolved by the configuration; explicit end-to-end instances; basic-only parsers search no "
+              "extended form; accepted texts never mix basic and extended parts."),
+        note=("C07_decode_partial stops at the constructor call (evaluation to field values is proved for instances only; the constructor itself is "
+              "characterised under C09); a truncated time without zone after 'T', sign-prefixed forms with 0 expanded digits (they raise ValueError "
+              "in the package: int('')), and three shadowed '-'-signed century forms under allow_truncated are excluded; decimals are exact "
+              "rationals in the model and compared to 1e-9 with the implementation's floats."),
+        technique="Coq proof (generic regex-token lemma + vm_compute reflection over generated tables) + exhaustive form x configuration correspondence",
+        design="7 C07"),
+    "C09": dict(
+        text=("Theorems (Props/C09.v): the constructor accepts a calendar / ordinal / week date tuple exactly when Spec valid_cal / valid_ord / "
+              "valid_week holds in the mode and the time and zone fields are in range (both directions); every full point the time-point parser "
+              "returns, for ANY text and configuration, is a valid point with exactly one date representation. Correspondence: every field tuple in "
+              "and just outside its range per mode and year type through the constructor and the text notations, and a malformed stream (mutations, "
+              "splices, noise incl. non-ASCII digits) for the three parsers: a valid object or a ValueError-derived error, never another exception, "
+              "never a hang (10 s)."),
+        note=("The duration and recurrence parsers are judged on the implementation only in this check (duration text is modelled under C10); "
+              "implicit CPython exceptions and Unicode digits are covered by the malformed stream, not by a theorem; 'never a hang' is a per-call "
+              "time limit, with known finding F8 (astronomical repetition counts)."),
+        technique="Coq proof (constructor accepts iff Spec-valid; parser results valid) + boundary enumeration + malformed-input correspondence",
+        design="7 C09"),
+    "C20": dict(
+        text=("Theorems (Props/C20.v): the specification next_match really is the least matching (day, second) not earlier than the start "
+              "(soundness and least-ness of the bounded search; date-of-day-number inverse functions proved); for a truncated point with time "
+              "fields only (all seven hour/minute/second combinations), unknown zone, and any valid whole-second point: the model's result is "
+              "that least match, valid, in the point's offset and representation, and idempotent; for one day designator without time fields: "
+              "termination, match, not earlier, same time of day (C20_day_partial: least-ness there rests on the oracle run); T24 runs to the "
+              "loop bound and the hour-less day+minute target is not least (refuted statements = known findings F8b, F10)."),
+        note=("Least-ness for day designators and for truncated points with their own zone is decided by the correspondence + Spec oracle only; "
+              "fractional hour/minute forms of the full point are the float regime (known finding F11)."),
+        technique="Coq proof (loop invariants for unit stepping; specification proved least) + correspondence with per-call timeout + Spec oracle",
+        design="7 C20"),
     "C11": dict(
         text=("Theorems (Props/C11.v) over arbitrary rational components: value of a sum, commutativity, associativity, identity, inverse, "
               "n*d = n-fold sum, a-b = a+(-1)b; == is an equivalence, exact durations equal iff lengths equal, general characterisation "
@@ -90,6 +128,39 @@ CLAIMED = {
         note="The text round trip is checked on the implementation only (no recurrence parser model yet); hashes are checked for == implies equal hash on the implementation.",
         technique="Coq proof (10-shape constructor inversion) + correspondence + implementation-side round-trip oracle",
         design="7 C14"),
+    "C15": dict(
+        text=("Theorems (Props/C15.v): the process-wide mode and the lru_cache'd helpers as a state machine (state = spelling last set + cache as a finite "
+              "map, nested cached calls included; keys carry the spelling iff the regenerated table says every call site passes CALENDAR.mode). Every cache "
+              "entry always equals the pure helper at its key's mode; for ALL histories of set_mode (7 spellings, any case, None, invalid) and calls every "
+              "output equals the pure helper under the mode last set and equals what a fresh process prints after one set_mode of the current spelling; "
+              "reflection over the regenerated call graph: every cached function that reads mode-dependent CALENDAR state transitively has the mode in its "
+              "key, get_is_leap_year reads none, no caller mutates a cached list, nothing but set_mode writes the singleton; set_mode's derived constants "
+              "are a function of its argument and never-shadowed class constants (def/use checker + its soundness); 12x30, 365, 366, Gregorian rule through "
+              "the helpers; a key table lacking the mode for get_days_in_month is refuted by a 2-call history. Correspondence: seeded histories (5-40 steps) "
+              "in one process incl. conversions, validation, arithmetic, recurrences and in-process CLI calls (--calendar / ISODATETIMECALENDAR / neither), "
+              "judged per step against the single-mode model answer, against fresh subprocesses per spelling (sample) and on lru_cache sizes."),
+        note="lru_cache is modelled as an unbounded map; the AST analysis of tools/translate_cache.py is trusted; TimePointDumper caches and "
+             "_iter_months_days are covered by the table obligations only; strftime's datetime fallback (%a, %b ...) is outside the model and is "
+             "Gregorian in every mode (observation O3 in notes/C15_REPORT.md).",
+        technique="Coq proof (cache invariant by induction over histories, reflection over generated tables) + history correspondence + fresh-process oracle",
+        design="7 C15"),
+    "C16": dict(
+        text=("Theorems (Props/C16.v) over a heap semantics of a write-effect IR regenerated from data.py on every run (every "
+              "method of TimePoint, Duration, TimeZone, TimeRecurrence; name-based dispatch, untracked arguments, any statement "
+              "may raise, external code = arbitrary calls of public methods): the generated table passes the checker; for any "
+              "table that passes, no execution of a public method changes an object that existed before the call (frame theorem, "
+              "by soundness of a flow-insensitive freshness analysis with per-method summaries, proved in full); hence after every "
+              "step of every sequence of public operations the heap extends every earlier heap, and every earlier value shows the "
+              "same tree of slots to any depth (state, str, hash; shared sub-objects included). Run-time side: 400 (6000) random "
+              "sequences x 30 operations over a growing pool with a class-level __setattr__ hook (every write must hit an object "
+              "allocated in the current call), slot/str/hash snapshots of every value after every step, and comparison of each "
+              "method's observed result identity with its inferred summary; all public names enumerated by reflection."),
+        note=("Proved about the IR, not about Python: that the IR over-approximates the source is the translator's job (fails closed on "
+              "writes through attribute chains/subscripts, reflective identifiers, try/lambda/global, foreign writes to slots, monkey "
+              "patching, subclasses) and is trusted; generators are modelled as run-to-completion with locals forgotten at each yield; "
+              "values other than the four classes are assumed immutable primitives."),
+        technique="Coq proof (soundness of an effect analysis w.r.t. a heap semantics) + generated IR table + write-trace/snapshot correspondence",
+        design="7 C16"),
     "C18": dict(
         text=("Theorems (Props/C18.v): for every whole-minute offset (no bound) the (hours, minutes) split is exact with both parts carrying "
               "the sign; DST selection rule; the three text forms denote the pair (finite reflection over the whole legal box, Z for "
